@@ -98,9 +98,59 @@ class Iter:
         return self.items[self.i:]
 
 
+class PyMap:
+    """HashMap / BTreeMap / IndexMap model: insertion-ordered (rules permute insertion order to test order independence)."""
+    def __init__(self, items=None, sorted_=False):
+        self.d = dict(items or [])
+        self.sorted = sorted_
+
+    def items(self):
+        it = list(self.d.items())
+        return sorted(it, key=lambda kv: kv[0]) if self.sorted else it
+
+    def __eq__(self, o):
+        return isinstance(o, PyMap) and self.d == o.d
+
+    def __hash__(self):
+        return 0
+
+    def __repr__(self):
+        return "Map%s" % (self.d,)
+
+
+class PySet:
+    def __init__(self, items=None, sorted_=False):
+        self.d = dict.fromkeys(items or [])
+        self.sorted = sorted_
+
+    def items(self):
+        it = list(self.d)
+        return sorted(it) if self.sorted else it
+
+    def __eq__(self, o):
+        return isinstance(o, PySet) and set(self.d) == set(o.d)
+
+    def __hash__(self):
+        return 0
+
+    def __repr__(self):
+        return "Set%s" % (list(self.d),)
+
+
+MAP_TYPES = ("::hash::map::HashMap", "::btree::map::BTreeMap", "indexmap::map::IndexMap")
+SET_TYPES = ("::hash::set::HashSet", "::btree::set::BTreeSet", "indexmap::set::IndexSet")
+RANGE = "core::ops::range::Range"
+
+
 class FnItem:
     def __init__(self, path):
         self.path = path
+
+
+class Native:
+    """A callable supplied by the rule (stands for an opaque closure / predicate argument)."""
+    def __init__(self, f):
+        self.f = f
 
 
 ORDERING = "core::cmp::Ordering"
@@ -127,6 +177,39 @@ NONE = Enum(OPTION, "None")
 
 def ordering(a, b):
     return Enum(ORDERING, "Less" if a < b else ("Greater" if a > b else "Equal"))
+
+
+def make(lib, adt, overrides=None, depth=3):
+    """Abstract struct value for `adt` built from the ADT metadata: Vec -> [], Option -> None, bool -> false, integers -> 0,
+    String -> "", nested structs recursively (bounded), anything else UNKNOWN; `overrides` sets the fields a scenario is about."""
+    a = lib.adts.get(adt)
+    fields = {}
+    if a is not None and a.get("kind") == "struct":
+        for f in a["variants"][0]["fields"]:
+            fields[f["name"]] = _default_for(lib, f.get("tys", ""), depth)
+    for k, v in (overrides or {}).items():
+        fields[k] = v
+    return Struct(adt, fields)
+
+
+def _default_for(lib, tys, depth):
+    t = tys
+    while t.startswith(("alloc::boxed::Box<", "&")):
+        t = t[len("alloc::boxed::Box<"):-1] if t.startswith("alloc::boxed::Box<") else t[1:]
+    if t.startswith(("alloc::vec::Vec<", "alloc::collections::vec_deque::VecDeque<")):
+        return []
+    if t.startswith("core::option::Option<"):
+        return Enum(OPTION, "None")
+    if t == "bool":
+        return False
+    if re.fullmatch(r"[iu](8|16|32|64|128|size)", t):
+        return 0
+    if t in ("alloc::string::String", "str"):
+        return ""
+    a = lib.adts.get(t.split("<")[0])
+    if a is not None and a.get("kind") == "struct" and depth > 0:
+        return make(lib, t.split("<")[0], None, depth - 1)
+    return UNKNOWN
 
 
 class _Ret(Exception):
@@ -252,10 +335,34 @@ class PEval:
                 if r is UNKNOWN:
                     res = UNKNOWN
             return res
+        if k == "Slice":
+            seq = v.rest() if isinstance(v, Iter) else v
+            if isinstance(seq, (str, bytes)):
+                seq = [ord(c) for c in seq] if isinstance(seq, str) else list(seq)
+            if not isinstance(seq, list) or "np" not in p:
+                return UNKNOWN
+            subs, np_, rest = p["subs"], p["np"], p.get("rest")
+            ns = len(subs) - np_ - (1 if rest else 0)
+            if (rest and len(seq) < np_ + ns) or (not rest and len(seq) != len(subs)):
+                return False
+            res = True
+            parts = [(subs[i], seq[i]) for i in range(np_)]
+            if rest:
+                parts.append((subs[np_], seq[np_:len(seq) - ns]))
+            parts += [(subs[len(subs) - ns + i], seq[len(seq) - ns + i]) for i in range(ns)]
+            for sp, sv in parts:
+                r = self.match(sp, sv, env)
+                if r is False:
+                    return False
+                if r is UNKNOWN:
+                    res = UNKNOWN
+            return res
         if k == "Const":
             c = self.const_of(p)
             if c is UNKNOWN:
                 return UNKNOWN
+            if isinstance(c, str) and isinstance(v, list) and all(isinstance(x, int) for x in v):
+                return v == [ord(ch) for ch in c]
             return v == c
         if k == "Range":
             if not isinstance(v, int) or isinstance(v, bool):
@@ -300,6 +407,14 @@ class PEval:
                 return s
             if len(v) >= 2 and v[0] == '"' and v[-1] == '"':
                 return v[1:-1]
+            if len(v) >= 3 and v[0] == "'" and v[-1] == "'":
+                try:
+                    import ast
+                    c = ast.literal_eval(v.replace("\\u{", "\\u{")) if "\\u{" not in v else chr(int(v[4:-2], 16))
+                    if isinstance(c, str) and len(c) == 1:
+                        return ord(c)  # chars are code points (so that range patterns and class tests apply)
+                except (ValueError, SyntaxError):
+                    pass
         return self.unknown("literal %r" % (v,))
 
     def truth(self, v):
@@ -617,6 +732,8 @@ class PEval:
                 return r.v
         if isinstance(f, FnItem):
             return self.call_named(f.path, f.path.split("::")[-1], args, None, depth + 1)
+        if isinstance(f, Native):
+            return f.f(*[deref(a) for a in args])
         return UNKNOWN
 
     def call(self, e, env, depth):
@@ -640,9 +757,12 @@ class PEval:
             return copy.deepcopy(v0) if isinstance(v0, (Struct, Enum, list)) else v0
         if fname in ("eq", "ne") and len(args) == 2 and ("PartialEq" in path or "cmp::" in path):
             l_, r_ = deref(args[0]), deref(args[1])
+            same = (isinstance(l_, (Struct, Enum)) and isinstance(r_, (Struct, Enum)) and l_.adt == r_.adt) or \
+                   (type(l_) is type(r_) and not isinstance(l_, (Struct, Enum)))
+            if same:
+                return (l_ == r_) if fname == "eq" else (l_ != r_)
             if l_ is UNKNOWN or r_ is UNKNOWN:
                 return UNKNOWN
-            return (l_ == r_) if fname == "eq" else (l_ != r_)
         if fname == "into" and len(args) == 1 and node is not None and "convert::Into" in path and node.get("args"):
             # `x.into()` goes through core's blanket impl: resolve the local `impl From<X> for Y` from the static types
             ty_to = self.lib.ty_str(self.lib.strip_refs(node["t"]))
@@ -653,11 +773,16 @@ class PEval:
             if cand is not None and thir.body_of(cand):
                 return self.call_fn(cand, args, depth + 1)
         local = self.lib.fn(path)
+        if local is not None and args and isinstance(deref(args[0]), (Iter, PyMap, PySet)) and (" as " in path):
+            local = None  # a trait method on one of the evaluator's own container objects: use the std model
+        rargs = args
         if not (local is not None and thir.body_of(local)):
             args = [deref(a) for a in args]
         a0 = deref(args[0]) if args else UNKNOWN
-        is_std = path.startswith(("core::", "alloc::", "std::", "<")) and "nodes::" not in path.split(" as ")[0]
-        local = self.lib.fn(path)
+        if not (local is not None and thir.body_of(local)):
+            r = self.std_text_and_maps(path, fname, rargs, args, a0, node, depth)
+            if r is not NotImplemented:
+                return r
         if local is not None and thir.body_of(local):
             # accessor: returns (a reference to) one field of the receiver
             if isinstance(a0, (Struct, Enum)) and len(args) == 1:
@@ -666,6 +791,56 @@ class PEval:
                     return a0.fields.get(fld, UNKNOWN)
             return self.call_fn(local, args, depth + 1)
         # ---- std model -------------------------------------------------------------------------------
+        if path.startswith("core::mem::") and rargs and isinstance(rargs[0], Ref):
+            cell = rargs[0]
+            cur = cell.get()
+            if fname == "take" and isinstance(cur, (str, int, bool)):
+                cell.set("" if isinstance(cur, str) else (False if isinstance(cur, bool) else 0))
+                return cur
+            if fname == "replace" and len(rargs) == 2:
+                cell.set(deref(rargs[1]))
+                return cur
+            if fname == "swap" and len(rargs) == 2 and isinstance(rargs[1], Ref):
+                other = rargs[1].get()
+                rargs[1].set(cur)
+                cell.set(other)
+                return UNIT
+        if path.startswith("core::mem::") and args:
+            raw = args  # already dereferenced for std calls; objects are shared
+            if fname == "swap" and len(raw) == 2 and isinstance(raw[0], (Struct, Enum)) and isinstance(raw[1], (Struct, Enum)):
+                x, y = raw
+                if isinstance(x, Enum) and isinstance(y, Enum):
+                    x.adt, y.adt = y.adt, x.adt
+                    x.variant, y.variant = y.variant, x.variant
+                x.fields, y.fields = y.fields, x.fields
+                return UNIT
+            if fname == "swap" and len(raw) == 2 and isinstance(raw[0], list) and isinstance(raw[1], list):
+                tmp = list(raw[0])
+                raw[0][:] = raw[1]
+                raw[1][:] = tmp
+                return UNIT
+            if fname in ("take", "replace") and isinstance(raw[0], (Struct, Enum, list)):
+                import copy
+                old = copy.copy(raw[0]) if not isinstance(raw[0], list) else list(raw[0])
+                if isinstance(raw[0], list):
+                    raw[0][:] = raw[1] if fname == "replace" and isinstance(raw[1], list) else []
+                    return old
+                if isinstance(raw[0], Enum):
+                    old = Enum(raw[0].adt, raw[0].variant, raw[0].fields)
+                else:
+                    old = Struct(raw[0].adt, raw[0].fields)
+                if fname == "replace" and len(raw) == 2 and isinstance(raw[1], type(raw[0])):
+                    if isinstance(raw[0], Enum):
+                        raw[0].adt, raw[0].variant = raw[1].adt, raw[1].variant
+                    raw[0].fields = dict(raw[1].fields)
+                    return old
+                if fname == "take" and isinstance(raw[0], Enum) and raw[0].adt == OPTION:
+                    raw[0].variant, raw[0].fields = "None", {}
+                    return old
+                return self.unknown("mem::%s of this value" % fname)
+        if fname in ("call", "call_mut", "call_once") and "ops::function" in path and len(args) == 2:
+            tup = args[1]
+            return self.apply(a0, list(tup) if isinstance(tup, tuple) and tup is not UNIT else [], depth)
         if path.startswith(("alloc::boxed::", "alloc::intrinsics::", "alloc::rc::", "alloc::sync::")) or "alloc::slice::" in path:
             # Box::new(x) / the `vec![..]` expansion: containers are transparent, arrays are lists
             if fname == "new" and len(args) == 1:
@@ -808,6 +983,21 @@ class PEval:
             return max(args) if fname == "max" else min(args)
         if isinstance(a0, Enum) and a0.adt == OPTION:
             inner = a0.fields.get("0", UNKNOWN)
+            if fname == "take" and len(args) == 1:
+                old = Enum(a0.adt, a0.variant, a0.fields)
+                a0.variant, a0.fields = "None", {}
+                return old
+            if fname == "replace" and len(args) == 2:
+                old = Enum(a0.adt, a0.variant, a0.fields)
+                a0.variant, a0.fields = "Some", {"0": args[1]}
+                return old
+            if fname == "insert" and len(args) == 2:
+                a0.variant, a0.fields = "Some", {"0": args[1]}
+                return args[1]
+            if fname in ("get_or_insert", "get_or_insert_with") and len(args) == 2:
+                if a0.variant == "None":
+                    a0.variant, a0.fields = "Some", {"0": args[1] if fname == "get_or_insert" else self.apply(args[1], [], depth)}
+                return a0.fields.get("0", UNKNOWN)
             if fname == "is_some":
                 return a0.variant == "Some"
             if fname == "is_none":
@@ -941,8 +1131,8 @@ class PEval:
                 return UNKNOWN if unk else (fname == "all")
             if fname == "rev":
                 return list(reversed(a0))
-            if fname == "chain" and len(args) == 2 and isinstance(args[1], list):
-                return a0 + args[1]
+            if fname == "chain" and len(args) == 2 and isinstance(args[1], (list, Iter)):
+                return a0 + (args[1].rest() if isinstance(args[1], Iter) else args[1])
             if fname in ("map",) and len(args) == 2:
                 return [self.apply(args[1], [x], depth) for x in a0]
             if fname == "flat_map" and len(args) == 2:
@@ -987,6 +1177,250 @@ class PEval:
             if fname == "collect":
                 return a0
         return self.unknown("call %s" % (path or fname))
+
+    # ---- strings, chars, maps, sets, ranges ---------------------------------------------------------
+    def std_text_and_maps(self, path, fname, rargs, args, a0, node, depth):
+        ret_t = self.lib.ty_str(self.lib.strip_refs(node["t"])) if node is not None and "t" in node else ""
+        # constructors chosen by the static result type
+        if fname in ("new", "default", "with_capacity", "with_hasher", "with_capacity_and_hasher") and (not args or not isinstance(a0, (PyMap, PySet, list, str))):
+            if any(t in ret_t.split("<")[0] for t in MAP_TYPES) or any(t in path for t in MAP_TYPES):
+                return PyMap(sorted_="btree" in (ret_t + path))
+            if any(t in ret_t.split("<")[0] for t in SET_TYPES) or any(t in path for t in SET_TYPES):
+                return PySet(sorted_="btree" in (ret_t + path))
+            if ret_t == "alloc::string::String" or "string::String" in path:
+                return ""
+        if fname == "new" and "range::RangeInclusive" in path and len(args) == 2:
+            return Struct(RANGE, {"start": args[0], "end": args[1] + 1 if isinstance(args[1], int) else UNKNOWN})
+        # ---- char (code point) ------------------------------------------------------------------------
+        if isinstance(a0, int) and not isinstance(a0, bool) and ("char" in path or "u8" in path or "ascii" in fname):
+            c = a0
+            table = {
+                "is_ascii_digit": 48 <= c <= 57, "is_ascii_alphabetic": 65 <= c <= 90 or 97 <= c <= 122,
+                "is_ascii_alphanumeric": 48 <= c <= 57 or 65 <= c <= 90 or 97 <= c <= 122, "is_ascii": c < 128,
+                "is_ascii_lowercase": 97 <= c <= 122, "is_ascii_uppercase": 65 <= c <= 90, "is_ascii_graphic": 33 <= c <= 126,
+                "is_ascii_whitespace": c in (32, 9, 10, 12, 13), "is_ascii_control": c < 32 or c == 127,
+                "is_ascii_punctuation": (33 <= c <= 47) or (58 <= c <= 64) or (91 <= c <= 96) or (123 <= c <= 126),
+                "is_ascii_hexdigit": chr(c) in "0123456789abcdefABCDEF" if c < 128 else False,
+            }
+            if fname in table and len(args) == 1:
+                return table[fname]
+            if c < 128:
+                if fname == "is_digit" and len(args) == 2 and args[1] == 10:
+                    return 48 <= c <= 57
+                if fname == "is_numeric" and len(args) == 1:
+                    return 48 <= c <= 57
+                if fname == "is_alphabetic" and len(args) == 1:
+                    return 65 <= c <= 90 or 97 <= c <= 122
+                if fname == "is_alphanumeric" and len(args) == 1:
+                    return 48 <= c <= 57 or 65 <= c <= 90 or 97 <= c <= 122
+                if fname == "is_whitespace" and len(args) == 1:
+                    return c in (32, 9, 10, 11, 12, 13)
+                if fname == "is_lowercase" and len(args) == 1:
+                    return 97 <= c <= 122
+                if fname == "is_uppercase" and len(args) == 1:
+                    return 65 <= c <= 90
+                if fname == "is_control" and len(args) == 1:
+                    return c < 32 or c == 127
+                if fname in ("to_ascii_lowercase", "to_ascii_uppercase"):
+                    return ord(chr(c).lower() if "lower" in fname else chr(c).upper())
+        # ---- str / String -----------------------------------------------------------------------------
+        if isinstance(a0, str):
+            def txt(x):
+                return chr(x) if isinstance(x, int) and not isinstance(x, bool) else x
+            r0 = rargs[0] if rargs else None
+            if fname in ("push_str", "push") and len(args) == 2 and isinstance(r0, Ref) and isinstance(txt(args[1]), str):
+                r0.set(a0 + txt(args[1]))
+                return UNIT
+            if fname == "clear" and isinstance(r0, Ref):
+                r0.set("")
+                return UNIT
+            if fname == "len":
+                return len(a0.encode("utf-8"))
+            if fname == "is_empty":
+                return a0 == ""
+            if fname == "is_ascii":
+                return a0.isascii()
+            if fname == "chars":
+                return Iter([ord(c) for c in a0])
+            if fname == "char_indices":
+                out, i = [], 0
+                for c in a0:
+                    out.append((i, ord(c)))
+                    i += len(c.encode("utf-8"))
+                return Iter(out)
+            if fname in ("bytes", "as_bytes", "into_bytes"):
+                b = list(a0.encode("utf-8"))
+                return Iter(b) if fname == "bytes" else b
+            if fname == "lines":
+                return Iter(a0.splitlines())
+            if fname in ("is_char_boundary",) and len(args) == 2 and isinstance(args[1], int):
+                return True if a0.isascii() else self.unknown("char boundary in non-ASCII text")
+            if len(args) == 2 and isinstance(txt(args[1]), str):
+                x = txt(args[1])
+                if fname == "starts_with":
+                    return a0.startswith(x)
+                if fname == "ends_with":
+                    return a0.endswith(x)
+                if fname == "contains":
+                    return x in a0
+                if fname == "strip_prefix":
+                    return some(a0[len(x):]) if a0.startswith(x) else NONE
+                if fname == "strip_suffix":
+                    return some(a0[:len(a0) - len(x)]) if x and a0.endswith(x) else (some(a0) if not x else NONE)
+                if fname == "trim_start_matches" and x:
+                    while a0.startswith(x):
+                        a0 = a0[len(x):]
+                    return a0
+                if fname == "trim_end_matches" and x:
+                    while a0.endswith(x):
+                        a0 = a0[:len(a0) - len(x)]
+                    return a0
+                if fname == "find" and a0.isascii():
+                    i = a0.find(x)
+                    return some(i) if i >= 0 else NONE
+                if fname == "rfind" and a0.isascii():
+                    i = a0.rfind(x)
+                    return some(i) if i >= 0 else NONE
+                if fname == "split":
+                    return Iter(a0.split(x)) if x else self.unknown("split on empty pattern")
+                if fname == "matches":
+                    return Iter([x] * a0.count(x)) if x else self.unknown("matches of empty pattern")
+            if fname == "trim":
+                return a0.strip()
+            if fname == "trim_start":
+                return a0.lstrip()
+            if fname == "trim_end":
+                return a0.rstrip()
+            if fname == "repeat" and len(args) == 2 and isinstance(args[1], int):
+                return a0 * args[1]
+            if fname in ("to_lowercase", "to_ascii_lowercase"):
+                return a0.lower()
+            if fname in ("to_uppercase", "to_ascii_uppercase"):
+                return a0.upper()
+            if fname == "get" and len(args) == 2 and isinstance(args[1], Struct) and args[1].adt.startswith("core::ops::range::") and a0.isascii():
+                lo = args[1].fields.get("start", 0)
+                hi = args[1].fields.get("end", len(a0))
+                if isinstance(lo, int) and isinstance(hi, int):
+                    return some(a0[lo:hi]) if 0 <= lo <= hi <= len(a0) else NONE
+            if fname == "index" and len(args) == 2 and isinstance(args[1], Struct) and args[1].adt.startswith("core::ops::range::") and a0.isascii():
+                lo = args[1].fields.get("start", 0)
+                hi = args[1].fields.get("end", len(a0))
+                if isinstance(lo, int) and isinstance(hi, int) and 0 <= lo <= hi <= len(a0):
+                    return a0[lo:hi]
+            if fname == "cmp" and len(args) == 2 and isinstance(args[1], str):
+                return ordering(a0, args[1])
+        # collecting chars / strings into a String
+        if fname == "collect" and ret_t == "alloc::string::String":
+            seq = a0.rest() if isinstance(a0, Iter) else a0
+            if isinstance(seq, list) and all(isinstance(x, (int, str)) and not isinstance(x, bool) for x in seq):
+                return "".join(chr(x) if isinstance(x, int) else x for x in seq)
+        if fname in ("collect", "from_iter") and (any(t in ret_t.split("<")[0] for t in MAP_TYPES) or any(t in ret_t.split("<")[0] for t in SET_TYPES)):
+            seq = a0.rest() if isinstance(a0, Iter) else (a0.items() if isinstance(a0, (PyMap, PySet)) else a0)
+            if isinstance(seq, list):
+                if any(t in ret_t.split("<")[0] for t in MAP_TYPES):
+                    if all(isinstance(x, tuple) and len(x) == 2 for x in seq):
+                        return PyMap(seq, sorted_="btree" in ret_t)
+                else:
+                    return PySet(seq, sorted_="btree" in ret_t)
+        # ---- maps --------------------------------------------------------------------------------------
+        if isinstance(a0, PyMap):
+            d = a0.d
+            key = args[1] if len(args) > 1 else None
+            hashable = not isinstance(key, (list, PyMap, PySet)) and key is not UNKNOWN
+            if fname in ("len",):
+                return len(d)
+            if fname == "is_empty":
+                return not d
+            if fname == "clear":
+                d.clear()
+                return UNIT
+            if fname in ("iter", "iter_mut", "into_iter", "drain"):
+                items = a0.items()
+                if fname == "drain":
+                    d.clear()
+                return Iter(items)
+            if fname in ("keys", "into_keys"):
+                return Iter([k for k, _ in a0.items()])
+            if fname in ("values", "values_mut", "into_values"):
+                return Iter([v for _, v in a0.items()])
+            if len(args) >= 2 and hashable:
+                if fname == "insert" and len(args) == 3:
+                    old = d.get(key, None)
+                    had = key in d
+                    d[key] = args[2]
+                    return some(old) if had else NONE
+                if fname in ("get", "get_mut"):
+                    if key in d:
+                        v = d[key]
+                        return some(v if isinstance(v, (Struct, Enum, list, PyMap, PySet)) or fname == "get" else Ref(d, key))
+                    return NONE
+                if fname == "contains_key":
+                    return key in d
+                if fname in ("remove", "swap_remove", "shift_remove"):
+                    return some(d.pop(key)) if key in d else NONE
+                if fname == "entry":
+                    return Struct("#Entry", {"map": a0, "key": key})
+            if fname == "extend" and len(args) == 2:
+                seq = args[1].rest() if isinstance(args[1], Iter) else (args[1].items() if isinstance(args[1], PyMap) else args[1])
+                if isinstance(seq, list) and all(isinstance(x, tuple) and len(x) == 2 for x in seq):
+                    for k, v in seq:
+                        d[k] = v
+                    return UNIT
+            if fname == "retain" and len(args) == 2:
+                for k, v in list(d.items()):
+                    r = self.truth(self.apply(args[1], [k, v], depth))
+                    if r is UNKNOWN:
+                        return self.unknown("retain predicate")
+                    if not r:
+                        del d[k]
+                return UNIT
+        if isinstance(a0, Struct) and a0.adt == "#Entry":
+            m, key = a0.fields["map"], a0.fields["key"]
+            if fname in ("or_default", "or_insert", "or_insert_with", "or_insert_with_key"):
+                if key not in m.d:
+                    if fname == "or_insert":
+                        m.d[key] = args[1]
+                    elif fname == "or_default":
+                        t = ret_t
+                        m.d[key] = PySet() if any(x in t for x in SET_TYPES) else (PyMap() if any(x in t for x in MAP_TYPES) else ([] if "Vec" in t else (0 if t in ("usize", "u32", "i32", "u64") else ("" if "String" in t else UNKNOWN))))
+                    else:
+                        m.d[key] = self.apply(args[1], [key] if fname.endswith("key") else [], depth)
+                v = m.d[key]
+                return v if isinstance(v, (Struct, Enum, list, PyMap, PySet)) else Ref(m.d, key)
+        # ---- sets --------------------------------------------------------------------------------------
+        if isinstance(a0, PySet):
+            d = a0.d
+            key = args[1] if len(args) > 1 else None
+            if fname == "len":
+                return len(d)
+            if fname == "is_empty":
+                return not d
+            if fname == "clear":
+                d.clear()
+                return UNIT
+            if fname in ("iter", "into_iter", "drain"):
+                items = a0.items()
+                if fname == "drain":
+                    d.clear()
+                return Iter(items)
+            if len(args) == 2 and key is not UNKNOWN and not isinstance(key, (list, PyMap, PySet, Iter)):
+                if fname == "insert":
+                    had = key in d
+                    d[key] = None
+                    return not had
+                if fname == "contains":
+                    return key in d
+                if fname in ("remove", "swap_remove", "shift_remove"):
+                    had = key in d
+                    d.pop(key, None)
+                    return had
+            if fname == "extend" and len(args) == 2:
+                seq = args[1].rest() if isinstance(args[1], Iter) else (args[1].items() if isinstance(args[1], PySet) else args[1])
+                if isinstance(seq, list):
+                    for k in seq:
+                        d[k] = None
+                    return UNIT
+        return NotImplemented
 
     def accessor_field(self, fn, recv):
         """Name of the receiver field a one-argument local function returns (directly or by reference), else None."""
